@@ -1110,3 +1110,82 @@ Proof.
   apply Hfree. unfold all_types. apply in_flat_map. exists d. auto.
 Qed.
 End Sound.
+
+(* ================================================================ where the code deviates *)
+Definition mkc (n : nat) (fl : flag) (t : ty) : cinfo * ty :=
+  ({| c_name := n; c_tag := None; c_flag := fl |}, t).
+Definition choice_IB : ty := TCons KChoice [mkc 1 FMandatory (TPrim PInt); mkc 2 FMandatory (TPrim PBool)] None [].
+
+(* T1 ::= INTEGER   T2 ::= CHOICE { c1 INTEGER, c2 BOOLEAN }   T3 ::= SET { c1 T1, c2 T2 } *)
+Definition w_refmark : module :=
+  {| m_tagging := TgExplicit;
+     m_defs := [ {| d_name := 1; d_tag := None; d_ty := TPrim PInt |};
+                 {| d_name := 2; d_tag := None; d_ty := choice_IB |};
+                 {| d_name := 3; d_tag := None;
+                    d_ty := TCons KSet [mkc 1 FMandatory (TRef 1); mkc 2 FMandatory (TRef 2)] None [] |} ] |}.
+
+Lemma distinct_sound_refuted : exists m, check m = Accept /\ ~ distinct_spec m.
+Proof.
+  exists w_refmark. split; [vm_compute; reflexivity|].
+  intro H.
+  assert (Hin : In (TCons KSet [mkc 1 FMandatory (TRef 1); mkc 2 FMandatory (TRef 2)] None [])
+                   (all_types w_refmark)) by (vm_compute; tauto).
+  specialize (H _ Hin). simpl in H. destruct H as [_ H].
+  unfold pairwise_disjoint in H. simpl in H.
+  inversion H as [|a l Ha _]; subst. inversion Ha as [|b l' Hab _]; subst.
+  apply (Hab (OT CUniversal 2)); simpl.
+  - eapply FT_ref; [vm_compute; reflexivity|]. simpl. apply FT_univ. reflexivity.
+  - eapply FT_ref; [vm_compute; reflexivity|]. simpl.
+    eapply FT_alt with (i := 0%nat); [reflexivity|]. simpl. apply FT_univ. reflexivity.
+Qed.
+
+(* the same module with the two members written in the other order is rejected *)
+Example refmark_swapped_rejected :
+  check {| m_tagging := TgExplicit;
+           m_defs := [ {| d_name := 1; d_tag := None; d_ty := TPrim PInt |};
+                       {| d_name := 2; d_tag := None; d_ty := choice_IB |};
+                       {| d_name := 3; d_tag := None;
+                          d_ty := TCons KSet [mkc 1 FMandatory (TRef 2); mkc 2 FMandatory (TRef 1)] None [] |} ] |}
+  = Reject [RTagClash].
+Proof. vm_compute. reflexivity. Qed.
+
+(* T1 ::= CHOICE { c1 T1, c2 NULL }: two alternatives share the tag of NULL, yet
+   the model (as the C) neither accepts nor rejects — the recursion never ends *)
+Definition w_leftrec : module :=
+  {| m_tagging := TgExplicit;
+     m_defs := [ {| d_name := 1; d_tag := None;
+                    d_ty := TCons KChoice [mkc 1 FMandatory (TRef 1); mkc 2 FMandatory (TPrim PNull)] None [] |} ] |}.
+
+Lemma reject_with_diagnostic_refuted : exists m, ~ distinct_spec m /\ check m = Crashes.
+Proof.
+  exists w_leftrec. split; [|vm_compute; reflexivity].
+  intro H.
+  assert (Hin : In (TCons KChoice [mkc 1 FMandatory (TRef 1); mkc 2 FMandatory (TPrim PNull)] None [])
+                   (all_types w_leftrec)) by (vm_compute; tauto).
+  specialize (H _ Hin). simpl in H. destruct H as [_ H].
+  unfold pairwise_disjoint in H. simpl in H.
+  inversion H as [|a l Ha _]; subst. inversion Ha as [|b l' Hab _]; subst.
+  apply (Hab (OT CUniversal 5)); simpl.
+  - eapply FT_ref; [vm_compute; reflexivity|]. simpl.
+    eapply FT_alt with (i := 1%nat); [reflexivity|]. simpl. apply FT_univ. reflexivity.
+  - apply FT_univ. reflexivity.
+Qed.
+
+(* T1 ::= ENUMERATED { e1(1), e2, e3(2) } satisfies the specification and is rejected *)
+Definition w_enum : module :=
+  {| m_tagging := TgExplicit;
+     m_defs := [ {| d_name := 1; d_tag := None;
+                    d_ty := TEnum [(1%nat, Some 1); (2%nat, None); (3%nat, Some 2)] |} ] |}.
+
+Lemma distinct_complete_refuted :
+  exists m, tagging_wf m /\ distinct_spec m /\ check m = Reject [REnumValue].
+Proof.
+  exists w_enum. split; [|split; [|vm_compute; reflexivity]].
+  - split; [|split].
+    + simpl. repeat constructor; simpl; tauto.
+    + repeat constructor.
+    + intros t Hin. vm_compute in Hin. destruct Hin as [E|[]]. subst. exact I.
+  - intros t Hin. vm_compute in Hin. destruct Hin as [E|[]]. subst. simpl. split.
+    + repeat constructor; simpl; intuition discriminate.
+    + repeat constructor; simpl; intuition discriminate.
+Qed.
